@@ -1,6 +1,7 @@
 import SimilarVerif.Lemmas.Compact
 import SimilarVerif.Props.C01
 import SimilarVerif.Lemmas.Capture
+import SimilarVerif.Lemmas.MyersTotal
 /-!
 # C11 — every captured op carries exact positions in both sequences
 
@@ -62,5 +63,43 @@ open SimilarVerif Spec
 
 /-- **end to end with the repaired swap**: exact raw streams give exact captured ops -/
 theorem capture_exact_repaired : type_of% @CaptureP.capture_exact_repaired := @CaptureP.capture_exact_repaired
+
+end SimilarVerif.C11
+
+namespace SimilarVerif.C11
+open SimilarVerif Spec
+
+/-- (d) Myers raw streams are exact without a deadline — unconditional -/
+theorem myers_raw_exact_uncond (E : Env) (os oe ns ne : Nat) (w : World) (r' : Rec) (w' : World)
+    (ho : os ≤ oe) (hn : ns ≤ ne) (hb : InBounds E os oe ns ne) (hclock : w.clock = none)
+    (h : rawTrace .myers E os oe ns ne w = .ok (r', w')) :
+    ∃ ops, r'.trace = ops.map Call.op ++ [.finish] ∧ Walk (eqB E) os ns ops oe ne ∧ Exact os ns ops :=
+  MyersT.myers_exact' E os oe ns ne w r' w' ho hn hb hclock (by simpa [rawTrace, diffWith] using h)
+
+/-- **end to end, Myers with the repaired swap**: every captured op carries exact positions -/
+theorem capture_myers_exact_repaired (E : Env) (os oe ns ne : Nat) (w : World)
+    (ho : os ≤ oe) (hn : ns ≤ ne) (hb : InBounds E os oe ns ne) (hclock : w.clock = none)
+    (ops : List Op) (w' : World) (hc : captureDiff .myers E true os oe ns ne w = .ok (ops, w')) :
+    Walk (eqB E) os ns ops oe ne ∧ Exact os ns ops := by
+  obtain ⟨raw, w1, hraw, hwr, _, hnr, hw, _, _, _, _, _, hex⟩ :=
+    CaptureP.capture_myers_valid E (MyersT.snake_in_box E) true os oe ns ne w ho hn hb ops w' hc
+  refine ⟨hw, hex rfl ?_⟩
+  obtain ⟨ops2, ht, _, hx2⟩ := MyersT.myers_exact' E os oe ns ne w _ w1 ho hn hb hclock
+    (by simpa [rawTrace, diffWith] using hraw)
+  have hinj : ∀ (a b : List Op), a.map Call.op = b.map Call.op → a = b := by
+    intro a
+    induction a with
+    | nil => intro b h; cases b <;> simp_all
+    | cons x xs ih =>
+      intro b h
+      cases b with
+      | nil => simp at h
+      | cons y ys =>
+        simp only [List.map_cons, List.cons.injEq, Call.op.injEq] at h
+        rw [h.1, ih ys h.2]
+  have : ops2 = raw := by
+    have h2 : ops2.map Call.op ++ [Call.finish] = raw.map Call.op ++ [Call.finish] := ht.symm.trans rfl
+    exact hinj _ _ (List.append_cancel_right h2)
+  exact this ▸ hx2
 
 end SimilarVerif.C11
